@@ -8,6 +8,7 @@ not expressed in the model; flags.Parse has no index arithmetic of its own (the 
 -/
 import LA.Proofs.Rule
 import LA.Proofs.Auparse
+import LA.Proofs.StateFacts
 
 namespace LA.Rule
 open LA
@@ -224,3 +225,9 @@ theorem C13_valid_when_ok (wf text : Bytes) (h : toCommandLine wf = Res.ok text)
 example : toCommandLine (le32 4 ++ le32 2 ++ le32 65 ++ List.replicate 1028 0) = Res.err "err" := by decide +kernel
 
 end LA.Rule
+
+/-! ### the code keeps nothing between calls that the model does not have -/
+
+/-- Packages rule and rule/flags write package-level variables only in the five table builders, which nothing but `init`
+mentions (regenerated list, see LA.Proofs.StateFacts): Parse, Build and ToCommandLine are functions of their arguments. -/
+theorem C13_rule_packages_keep_nothing_between_calls : LA.StateFacts.ofPkg "rule" = LA.StateFacts.ruleTableBuilders ∧ LA.StateFacts.ofPkg "rule/flags" = [] := by decide
